@@ -1784,10 +1784,11 @@ class Rule(metaclass=LogicalType):
     def _validate_contains(cls):
         # validate max_contains and min_contains as well
         contains = cls.contains
-        min_contains = cls.min_contains
-        max_contains = cls.max_contains
+        min_contains = None if unprovided(cls.min_contains) else cls.min_contains
+        max_contains = None if unprovided(cls.max_contains) else cls.max_contains
 
-        if max_contains or min_contains:
+        if max_contains is not None or min_contains is not None:
+            # a bound of 0 is a declared bound
             if not contains:
                 raise exc.ConfigError(
                     f"Rule with max_contains/min_contains must set <contains> constraint"
@@ -1817,6 +1818,8 @@ class Rule(metaclass=LogicalType):
         if not cls.contains:
             return value
 
+        min_contains = None if unprovided(cls.min_contains) else cls.min_contains
+        max_contains = None if unprovided(cls.max_contains) else cls.max_contains
         contains = 0
         for i, item in enumerate(value):
             with context.enter(route=i) as item_context:
@@ -1835,7 +1838,7 @@ class Rule(metaclass=LogicalType):
                     constraint_value=cls.contains,
                 )
             )
-        elif cls.min_contains and contains < cls.min_contains:
+        elif min_contains is not None and contains < min_contains:
             context.handle_error(
                 exc.ConstraintError(
                     f"value contains {contains} of {cls.contains}, which is lower than min_contains",
@@ -1843,7 +1846,7 @@ class Rule(metaclass=LogicalType):
                     constraint_value=cls.min_contains,
                 )
             )
-        elif cls.max_contains and contains > cls.max_contains:
+        elif max_contains is not None and contains > max_contains:
             context.handle_error(
                 exc.ConstraintError(
                     f"value contains {contains} of {cls.contains}, which is bigger than max_contains",
